@@ -55,9 +55,14 @@ TABLE = {
             "vs configuration sets, one representative code point per character class) and which the kernel re-checks "
             "on every regeneration. Static theorems (Props/C14.lean): the model lexer takes the longest match over all "
             "rules, earliest rule on ties; what a rule contributes is the longest prefix in its language; 61 token "
-            "kinds. Partial: the parser ATN's language and the ~6000 lines of generated recursive-descent code around "
-            "the ATNs are compared with the grammar differentially only (shipped parser vs an Earley recogniser on all "
-            "token sequences up to 5/7 tokens, random sentences, mutations; shipped lexer vs a reference lexer).",
+            "kinds. PARSER (C14_parser_rule_language): for each of the 35 parser rules the ATN's rule-body automaton, read over "
+            "the alphabet tokens + rule references, accepts exactly the grammar's right-hand side (for the left-recursive "
+            "rule expression: the form ANTLR rewrites it to, primary (operator operand)*), same certificate method. "
+            "Partial: precedence predicates are ignored (they select parse trees, not sentences), the step from rule "
+            "bodies to the language of the whole grammar is the textbook substitution argument and is not formalised, "
+            "and the ~6000 lines of generated recursive-descent code around the ATNs are compared with the grammar "
+            "differentially only (shipped parser vs an Earley recogniser on all token sequences up to 5/7 tokens, random "
+            "sentences, mutations; shipped lexer vs a reference lexer).",
             "Lean 4 proof over regenerated data (translator + certificate checker proved sound) + lexer/parser differential",
             "DESIGN.md 7 (C14)",
             "Trusted readers: harness/translate.py, harness/g4.py (validated each run). The ATN decoder and the "
